@@ -27,8 +27,9 @@ import (
 	"github.com/prometheus/client_golang/prometheus"
 	"go.uber.org/zap"
 
-	"verif/harness/hx"
 	"time"
+	"verif/harness/hmain"
+	"verif/harness/hx"
 )
 
 type c11Ctl struct {
@@ -139,9 +140,9 @@ func c11Serve(p *httpin.Plugin, body io.ReadCloser, gz bool) int {
 func c11Obs(evs [][]byte, code int) hx.Sx { return hx.L(hx.Bs(evs), hx.I(code)) }
 
 var (
-	c11P   *httpin.Plugin
-	c11C   *c11Ctl
-	c11Mu  sync.Mutex
+	c11P  *httpin.Plugin
+	c11C  *c11Ctl
+	c11Mu sync.Mutex
 )
 
 func c11Exec(which int, cs hx.Sx) hx.Sx {
@@ -329,7 +330,7 @@ func c11Chunkings(body []byte, f func(reads []hx.Sx, nchunks int)) {
 	}
 }
 
-func c11Gen(c *Ctx) {
+func c11Gen(c *hmain.Ctx) {
 	alpha := []byte{'a', 'b', '\n', '\r'}
 	maxLen := 6
 	if c.Tier == "thorough" {
@@ -487,8 +488,8 @@ func c11Gen(c *Ctx) {
 	}
 }
 
-func init() {
-	Register(&Prop{ID: "C11",
+func main() {
+	hmain.Run(&hmain.Prop{ID: "C11",
 		Rule: "exhaustive: every body over {a,b,\\n,\\r} up to the tier's length x every chunking; random bodies/chunkings incl. reads > 16KiB, empty reads, read errors, gzip, source-id scripts, scripted concurrent requests. Non-trivial = body has a newline and >= 2 reads, or a read error / id script of >= 3 ops / concurrent case; distinct = distinct (sub-model, case) text.",
-		Gen: c11Gen, Exec: c11Exec})
+		Gen:  c11Gen, Exec: c11Exec})
 }
